@@ -731,6 +731,30 @@ theorem union_strict_precondition (a b : Mol) :
    fun h => by rw [unionR_false, unionR_true]; exact unionStrict_eq_union h,
    fun ha hb flag => unionR_error_iff ha hb flag⟩
 
+/-- **one match of `_single_stage`, end to end** (`reduce(or_, chosen)` → `_patcher` → collision remap — the function the driver
+runs for `stage`): for well-formed reactant molecules with *any* numbering (colliding or not) the delivered product has
+pairwise distinct atom numbers, none of which is a number of an ignored (spectator) molecule — so the `ReactionContainer`
+assembled from `new + ignored` never repeats an atom number when the spectators themselves are disjoint
+(`fix_mapping_overlap_disjoint`) -/
+theorem single_stage_numbers_unique_and_clear_of_ignored (t : Template) (td : List Nat) (chosen : List Mol)
+    (mapping : List (Nat × Nat)) (ignored order : List Nat) (new : Mol) (hwf : ∀ m ∈ chosen, m.WF = true)
+    (h : singleStage t td chosen mapping ignored order = .ok new) :
+    new.ids.Nodup ∧ ∀ k ∈ new.ids, k ∉ ignored := by
+  unfold singleStage at h
+  split at h
+  · simp at h
+  · next u hu =>
+    split at h
+    · simp at h
+    · next p hp =>
+      have huwf : u.WF = true := by
+        rcases unionAll_total_wf chosen hwf with ⟨_, e, he⟩ | ⟨_, u', hu', hw⟩
+        · rw [hu] at he; cases he
+        · rw [hu] at hu'; cases hu'; exact hw
+      have hnd : p.mol.ids.Nodup := product_numbers_unique hp (wf_sound huwf).1
+      obtain ⟨h1, h2⟩ := collision_remap_disjoint p.mol new ignored order h hnd
+      exact ⟨h2, h1⟩
+
 /-- non-trivial instances: C1–O2 united with C1–N2 (all numbers collide): the second becomes 3, 4 with its bond; united with
 C5–N6 (disjoint): numbers kept; `remap=False` raises in the first case only -/
 def exU1 : Mol := ⟨[(1, {z := 6}), (2, {z := 8})], [(1, [(2, {order := 1})]), (2, [(1, {order := 1})])]⟩
@@ -982,6 +1006,12 @@ example : (match patcher exS exT [] [(1, 2), (2, 3)] with
                && p.mol.atoms.lookup 4 == some {z := 6, implH := some 3}
                && p.mol.atoms.lookup 1 == some {z := 6, implH := some 3}
                && p.mol.bond? 1 2 == some {order := 1} && p.mol.bond? 3 4 == some {order := 1}
+    | .error _ => false) = true := by decide +kernel
+
+/-- `single_stage_numbers_unique_and_clear_of_ignored` on a concrete run: the new atom would get number 4, which a spectator
+molecule owns, and is moved above every number in sight (10) -/
+example : (match singleStage exT [] [exS] [(1, 2), (2, 3)] [4, 9] [4] with
+    | .ok m => m.ids == [2, 3, 10, 1] && m.bond? 3 10 == some {order := 1}
     | .error _ => false) = true := by decide +kernel
 
 end ChythonModel.Props.C16
